@@ -1,6 +1,7 @@
 import LentilVerif.Model.PlaneMeta
 import LentilVerif.Lemmas.PlaneAlg
 import LentilVerif.Props.C06
+import LentilVerif.Lemmas.PlaneComplex
 /-! # C07 — wavefront views agree with each other and planes act as pointwise phasors
 
 Property theorems only. `Gen.mulPixelscale??` and `Gen.sliceOffset` are regenerated from lentil/plane.py and
@@ -33,10 +34,25 @@ theorem pixelscale_refusal (a b : Option (Int × Int)) :
 section handover
 variable {K R M : Type} [Zero K] [Mul K]
 
+/-- **what `Plane.multiply` hands over** (about the *generated* `Gen.planeMultiplyHandover`, `planeMultiplyPixelscaleArgs`,
+`planeMultiplyShape`, read off the source on every run): the new wavefront gets the incoming wavefront's wavelength and
+focal length, the reconciled pixel scale `_mul_pixelscale(plane, wavefront)`, the plane's shape unless that is `()`, and
+the data of `planeMultiply` at the incoming wavelength -/
+theorem plane_multiply_handover (phOf : M → R → K) (p : PlaneM K R) (ppx : Option (Int × Int)) (w : Wf K M) :
+    planeMultiplyW phOf p ppx w = (mulPixelscale ppx w.pixelscale).map fun px =>
+      { wavelength := w.wavelength, focal := w.focal, pixelscale := px,
+        shape := (match p.shape with | none => w.shape | some s => some s),
+        data := planeMultiply (phOf w.wavelength) p w.data } := by
+  unfold planeMultiplyW
+  simp only [Gen.planeMultiplyPixelscaleArgs, Gen.planeMultiplyHandover, Gen.planeMultiplyShape, Wf.ofHandover]
+  congr 1
+  funext px
+  cases p.shape <;> rfl
+
 /-- passing through a plane leaves the wavelength and the focal length unchanged, whatever the plane -/
 theorem plane_keeps_wavelength (phOf : M → R → K) (p : PlaneM K R) (ppx : Option (Int × Int)) (w w' : Wf K M)
     (h : planeMultiplyW phOf p ppx w = .ok w') : w'.wavelength = w.wavelength ∧ w'.focal = w.focal := by
-  unfold planeMultiplyW at h
+  rw [plane_multiply_handover] at h
   cases hp : mulPixelscale ppx w.pixelscale with
   | error e => rw [hp] at h; simp [Except.map] at h
   | ok px => rw [hp] at h; simp only [Except.map, Except.ok.injEq] at h; subst h; exact ⟨rfl, rfl⟩
@@ -50,14 +66,14 @@ theorem pupil_sets_focal_length (phOf : M → R → K) (p : PlaneM K R) (ppx : O
   cases hp : planeMultiplyW phOf p ppx w with
   | error e => rw [hp] at h; simp [Except.map] at h
   | ok w2 =>
-    rw [hp] at h; simp only [Except.map, Except.ok.injEq] at h; subst h
+    rw [hp] at h
+    simp only [Except.map, Except.ok.injEq, Gen.pupilMultiplyHandover, Wf.ofHandover, Wf.handover] at h; subst h
     exact ⟨rfl, (plane_keeps_wavelength phOf p ppx w w2 hp).1, w2, rfl, rfl, rfl, rfl⟩
 
 /-- the multiplication is refused exactly when `_mul_pixelscale` refuses -/
 theorem plane_refuses_iff (phOf : M → R → K) (p : PlaneM K R) (ppx : Option (Int × Int)) (w : Wf K M) :
     (∃ e, planeMultiplyW phOf p ppx w = .error e) ↔ ∃ x y, ppx = some x ∧ w.pixelscale = some y ∧ x ≠ y := by
-  unfold planeMultiplyW
-  rw [pixelscale_refusal]
+  rw [plane_multiply_handover, pixelscale_refusal]
   rcases ppx with _ | x <;> rcases hw : w.pixelscale with _ | y <;> simp [Except.map]
   by_cases h : x = y <;> simp [h]
 
@@ -147,7 +163,7 @@ theorem plane_multiply_monolithic (ph : R → K) (amp : Attr K) (opd : Attr R) (
         (if 0 ≤ r + S0 / 2 ∧ r + S0 / 2 < S0 ∧ 0 ≤ c + S1 / 2 ∧ c + S1 / 2 < S1 ∧ g.m (r + S0 / 2) (c + S1 / 2) = true
          then amp.at (r + S0 / 2) (c + S1 / 2) * ph (opd.at (r + S0 / 2) (c + S1 / 2)) else 0) := by
   rw [plane_multiply_pointwise ph amp opd S0 S1 [g] (by simpa using hc) (by simpa using hbig) data hd r c]
-  rw [sumList_cons, sumList_nil, add_zero]
+  rw [sumL_cons, sumL_nil, add_zero]
   rfl
 
 /-- non-vacuity: a 2×3 segment of a 5×5 plane satisfies `covers` and `hbig`, and on the fresh wavefront the theorem gives
@@ -206,6 +222,45 @@ theorem scalar_mask_phasor (ph : R → K) (amp : Attr K) (opd : Attr R) (on : Bo
       rw [if_neg hb, if_neg hin]
 
 end phasor
+
+/-! ## The phase factor is `exp(+2πi·OPD/λ)` -/
+section exponential
+open Complex
+attribute [local instance] PlaneC.realLikeReal PlaneC.cxLikeComplex
+
+/-- the model's phase factor `planePh` (the definition the driver runs at `Float`), instantiated at `ℝ`/`ℂ`, **is**
+`exp(+2πi · opd / wavelength)`: positive sign, full `2π`, division by the wavelength -/
+theorem planePh_eq_exp (wavelength opd : ℝ) :
+    (planePh wavelength opd : ℂ) = Complex.exp (2 * Real.pi * Complex.I * ((opd : ℂ) / (wavelength : ℂ))) := by
+  show Complex.exp (((2 * Real.pi * opd / wavelength : ℝ) : ℂ) * Complex.I) = _
+  congr 1
+  push_cast
+  ring
+
+/-- **the phasor statement with the explicit exponential** (`K = ℂ`, OPD and wavelength real): after a plane with one
+mask the total field at every pixel is the total incoming field times `amplitude · exp(+2πi·OPD/λ)` inside the mask and
+times `0` outside — `λ` being the *wavefront's* wavelength (`planeMultiplyW` passes `w.wavelength` to `planePh`) -/
+theorem plane_multiply_exp (wavelength : ℝ) (amp : Attr ℂ) (opd : Attr ℝ) (S0 S1 : Int) (g : Seg)
+    (hc : g.covers S0 S1) (hbig : g.s.r0 < g.s.r1 ∧ g.s.c0 < g.s.c1 ∧ ¬ (g.s.r1 - g.s.r0 = 1 ∧ g.s.c1 - g.s.c0 = 1))
+    (data : List (Fld ℂ)) (hd : ∀ f ∈ data, 0 < f.arr.s0 ∧ 0 < f.arr.s1) (r c : Int) :
+    sumList (planeMultiply (planePh wavelength) ⟨amp, opd, .segs S0 S1 [g]⟩ data) (fun g => g.emb r c)
+      = sumList data (fun f => f.sem r c) *
+        (if 0 ≤ r + S0 / 2 ∧ r + S0 / 2 < S0 ∧ 0 ≤ c + S1 / 2 ∧ c + S1 / 2 < S1 ∧ g.m (r + S0 / 2) (c + S1 / 2) = true
+         then amp.at (r + S0 / 2) (c + S1 / 2) *
+              Complex.exp (2 * Real.pi * Complex.I * (((opd.at (r + S0 / 2) (c + S1 / 2) : ℝ) : ℂ) / (wavelength : ℂ)))
+         else 0) := by
+  rw [plane_multiply_monolithic (planePh wavelength) amp opd S0 S1 g hc hbig data hd r c, planePh_eq_exp]
+
+/-- and the wavefront-level multiplication uses exactly this factor with the wavefront's own wavelength -/
+theorem plane_uses_wavefront_wavelength (p : PlaneM ℂ ℝ) (ppx : Option (Int × Int)) (w w' : Wf ℂ ℝ)
+    (h : planeMultiplyW (fun wl o => planePh wl o) p ppx w = .ok w') :
+    w'.data = planeMultiply (planePh w.wavelength) p w.data := by
+  rw [plane_multiply_handover] at h
+  cases hp : mulPixelscale ppx w.pixelscale with
+  | error e => rw [hp] at h; simp [Except.map] at h
+  | ok px => rw [hp] at h; simp only [Except.map, Except.ok.injEq] at h; subst h; rfl
+
+end exponential
 
 /-! ## The default plane is the identity -/
 section identity
@@ -278,7 +333,7 @@ theorem field_eq_sum (S0 S1 : Int) (data : List (Fld K)) (i j : Int) (hi : 0 ≤
   | cons f fs ih =>
     intro out h0 h1
     obtain ⟨e0, e1⟩ := C06.insert_shape f out 1 id
-    rw [List.foldl_cons, ih _ (e0.trans h0) (e1.trans h1), sumList_cons,
+    rw [List.foldl_cons, ih _ (e0.trans h0) (e1.trans h1), sumL_cons,
         C06.insert_emb f out 1 id i j (by omega) (by omega), h0, h1, add_assoc]
     congr 2
     show _ = embAt f.extent f.arr.get _ _
@@ -297,7 +352,7 @@ theorem insert_disjoint_normSq (nsq : K → K) (h0 : nsq 0 = 0) (gs : List (Fld 
   | cons g gs ih =>
     obtain ⟨e0, e1⟩ := C06.insert_shape g out w nsq
     have hrest := (List.pairwise_cons.mp hdis).1
-    rw [List.foldl_cons, ih (List.Pairwise.of_cons hdis) _ (by omega) (by omega), e0, e1, sumList_cons,
+    rw [List.foldl_cons, ih (List.Pairwise.of_cons hdis) _ (by omega) (by omega), e0, e1, sumL_cons,
         C06.insert_emb g out w nsq i j hi hj, add_assoc]
     congr 1
     have ge : g.emb (i - out.s0 / 2) (j - out.s1 / 2) = embAt g.extent g.arr.get (i - out.s0 / 2) (j - out.s1 / 2) := rfl
